@@ -314,7 +314,13 @@ fn verify_dir<D: Distance>(
             }
             v
         };
+        // Two admissible versions may hold the same items and differ only in whether a build was committed (a commit
+        // that only builds, a build of an empty index): the version is identified by the items AND by what
+        // need_build answers; a state that matches no admissible version in both respects is reported against the
+        // first one whose items match.
+        let need_now = catch(|| w.need_build(&rtxn)).ok().and_then(|r| r.ok());
         let mut found = None;
+        let mut found_by_items_only = None;
         let mut last_err = None;
         for a in admissible {
             let m = IndexModel {
@@ -330,13 +336,19 @@ fn verify_dir<D: Distance>(
             };
             match compare_store_writer::<D>(spec.metric, &w, &rtxn, isp, &m, &[0, u32::MAX]) {
                 Ok(()) => {
-                    found = Some((*a, m));
-                    break;
+                    let want_need = versions[*a].stale || !versions[*a].built;
+                    if need_now == Some(want_need) {
+                        found = Some((*a, m));
+                        break;
+                    }
+                    if found_by_items_only.is_none() {
+                        found_by_items_only = Some((*a, m));
+                    }
                 }
                 Err(e) => last_err = Some(e),
             }
         }
-        let Some((a, m)) = found else {
+        let Some((a, m)) = found.or(found_by_items_only) else {
             let msg = match last_err {
                 Some(Fail::Violation(v)) => v.message,
                 _ => String::new(),
